@@ -431,7 +431,7 @@ func GenLayout(r *rand.Rand, cfg LayoutCfg, id, pkgRel string) *Scenario {
 // unmarked emits an interface that must NOT be converted.
 func (g *LayoutGen) unmarked() {
 	it := &Iface{Converter: false}
-	k := g.R.Intn(7)
+	k := g.R.Intn(9)
 	it.Name = g.name("Plain")
 	a, b := "int", "string"
 	var doc string
@@ -448,6 +448,10 @@ func (g *LayoutGen) unmarked() {
 	case 5: // lower-case name
 		it.Name = g.name("convergen")
 	case 6: // marker as trailing comment on the brace line (handled below)
+	case 7: // the marker text somewhere INSIDE a doc line: commented out, quoted, mentioned
+		doc = []string{"// // :convergen", "// formerly // :convergen", "// see \":convergen\" in the README", "// x :convergen", "//// :convergen", "// disabled: /* :convergen */"}[g.R.Intn(6)] + "\n"
+	case 8: // marker-like words
+		doc = []string{"// :convergen2", "// :convergen_off", "// :Convergen", "// :CONVERGEN", "// : convergen", "// convergen"}[g.R.Intn(6)] + "\n"
 	}
 	trail := ""
 	if k == 6 {
